@@ -249,6 +249,24 @@ class Sim(object):
         f = self.fault
         if f is not None and self.fired is None and f.get("where") == "event" and f.get("index") == n:
             self._deliver(f, kind, rel, ctx or {})
+        elif (f is not None and self.fired is not None and f.get("then") and "second" not in self.fired and self.fired["kind"] != "KILL"
+              and kind in ("open_w", "open_a", "os_open_w", "write", "flush", "close_w")):
+            # a fault *sequence*: whatever the code does to a file after the first fault (an error handler that writes,
+            # a retry) meets a second fault.  Code that writes nothing after the first fault never gets here.
+            t = f["then"]
+            self.fired["second"] = {"kind": t["kind"], "event_kind": kind, "path": rel, "n": n}
+            if t["kind"] == "INTERRUPT":
+                raise SimInterrupt("simulated second Ctrl-C")
+            en = ERRNOS.get(t.get("errno", "EIO"), _errno.EIO)
+            if kind == "write":
+                self._write_prefix(ctx or {}, t.get("cut", 0.5))
+            elif kind in ("close_w", "flush"):
+                fobj = (ctx or {}).get("file")
+                if fobj is not None:
+                    fobj._pending = []
+                    if kind == "close_w":
+                        fobj._really_close()
+            raise SimOSError(en, "simulated (second fault) " + os.strerror(en), rel)
         elif (f is not None and self.fired is not None and f.get("persist") and self.fired["kind"] == "IOERR" and kind in PERSIST_EVENT_KINDS
               and not (kind in ("open_w", "open_a", "os_open_w") and f.get("errno", "EIO") in ("ENOSPC", "EDQUOT", "EIO"))):
             # (opening - and truncating - a file still works on a full disk; it is the writes that keep failing)
